@@ -90,6 +90,16 @@ class RecKind:
     def sort(self, kind):
         return self.parts(kind)[0]
 
+    def to_value(self, ex, term, kind):
+        """element term -> record value.  A compound term (xs[i] is a conditional between the in-range and the
+        out-of-range read) gets a name, so that a list it is appended to keeps the shape init ++ [e]"""
+        t = z3.simplify(term)
+        if ex.quant or z3.is_const(t) or (z3.is_app(t) and t.decl().kind() == z3.Z3_OP_DT_CONSTRUCTOR):
+            return Sym(t, kind)
+        c = z3.Const(ex.fresh_name('rec'), self.sort(kind))
+        ex.add_def(c == t)
+        return Sym(c, kind)
+
     def pytype(self, kind):
         from .vcgen import resolve_class
 
@@ -309,3 +319,25 @@ def install():
 
 
 install()
+
+
+# ---------------------------------------------------------------------------
+# 3. named(x): spec form -- the value x under a fresh name (definition c == x).  Natively the identity.  Keeps a
+#    compound term (nested conditionals of a scripted environment answer) from being copied into every later term.
+# ---------------------------------------------------------------------------
+def named(x):
+    return x
+
+
+def _q_named(ex, args, kwargs):
+    (v,) = args
+    if not isinstance(v, Sym) or ex.quant or z3.is_const(v.t):
+        return v
+    c = z3.Const(ex.fresh_name('named'), v.t.sort())
+    ex.add_def(c == v.t)
+    if v.k == 'bytes':
+        ex.add_def(z3.Length(c) >= 0)
+    return Sym(c, v.k)
+
+
+seqspec.SPEC_FORMS[named] = _q_named
